@@ -39,6 +39,8 @@ def check(chk: Check) -> None:
         jobs.append(j)
     jobs = fit_presets(jobs)
     for res in pmap(pipejob.run, jobs):
+        if res is None:
+            continue
         chk.functions.update(res["funcs"])
         jb = res["job"]
         cfg = f"{jb['integ']} physical={jb['physical']} preset={jb.get('preset')} delimited={jb.get('delimited')} frame_size={jb.get('frame_size')} logical={jb.get('logical')} via={jb.get('via')}"
